@@ -1,13 +1,14 @@
 SPECIFICATION Spec
 CONSTANTS
-  Kinds <- AllKinds
-  WLA <- AllWL
+  Kinds <- NoQUIC
+  WLA <- WLFour
   WLB <- OnlyAll
   Weak <- NoWeak
   MaxConn = 1
   MaxSend = 2
   MaxAdv = 1
   CacheMax = 16
+  Extras = {}
   Asks = {FALSE}
 INVARIANTS Attribution DialSafety Whitelist
 CHECK_DEADLOCK FALSE
